@@ -138,12 +138,22 @@ func runC31once(c c31combo) string {
 		end := time.Now().Add(deadline)
 		for time.Now().Before(end) {
 			if udpBound(port) {
-				return "listening"
+				// the socket must be our gateway's: a process that refuses to start is gone a moment later, and a port
+				// that is bound although our process has exited belongs to somebody else (a harness condition)
+				select {
+				case <-p.done:
+					return "inconclusive: address already in use (port bound by another process)"
+				case <-time.After(100 * time.Millisecond):
+				}
+				if udpBound(port) {
+					return "listening"
+				}
+				continue
 			}
 			select {
 			case <-p.done:
 				if udpBound(port) {
-					return "listening"
+					return "inconclusive: address already in use (port bound by another process)"
 				}
 				return fmt.Sprintf("refused:%d %s", p.code, p.output())
 			case <-time.After(20 * time.Millisecond):
